@@ -29,6 +29,31 @@ ASSUME LET r == D!RN53(<<1>>, <<3>>) IN
          D!WithinUlps([k |-> "fin", neg |-> FALSE, m |-> r[1], e |-> r[2]], B!FromInt(1), <<3>>, <<>>, 1)
 ASSUME LET r == D!RN53(<<34>>, <<100>>) IN
          ~D!WithinUlps([k |-> "fin", neg |-> FALSE, m |-> r[1], e |-> r[2]], B!FromInt(1), <<3>>, <<>>, 4)
+\* the defining property of round-to-nearest-even, on a grid of rationals p/q: with r = <<mant, e>>,
+\* 2^52 <= mant <= 2^53 and |p/q - mant 2^e| <= 2^e / 2, ties only with an even mantissa
+NearestOK(p, q) ==
+  LET r  == D!RN53(p, q)
+      sc == D!Scaled(p, q, r[2])                       \* p/q * 2^-e = sc[1] / sc[2]
+      df == IF B!CmpMag(sc[1], B!MulMag(r[1], sc[2])) >= 0 THEN B!SubMag(sc[1], B!MulMag(r[1], sc[2]))
+            ELSE B!SubMag(B!MulMag(r[1], sc[2]), sc[1])       \* |p/q 2^-e - mant| * sc[2]
+      c  == B!CmpMag(B!MulSmallMag(df, 2), sc[2])
+  IN  /\ B!CmpMag(r[1], P(52)) >= 0 /\ B!CmpMag(r[1], P(53)) <= 0
+      /\ (c < 0 \/ (c = 0 /\ r[1][1] % 2 = 0))
+ASSUME \A p \in 1..40, q \in 1..25 : NearestOK(B!MagOfNat(p), B!MagOfNat(q))
+ASSUME \A k \in {53, 54, 55, 60, 64, 100} : \A dlt \in 0..9 :
+         /\ NearestOK(B!AddMag(P(k), B!MagOfNat(dlt)), <<1>>)
+         /\ NearestOK(B!AddMag(P(k), B!MagOfNat(dlt)), <<7>>)
+         /\ NearestOK(B!AddMag(B!MulSmallMag(P(k), 3), B!MagOfNat(dlt)), P(k - 50))
+\* the shift-based fast path for power-of-two denominators has the same value as the generic rounding
+SameValue(a, b) == LET m == IF a[2] < b[2] THEN a[2] ELSE b[2] IN
+                     B!MulMag(a[1], P(a[2] - m)) = B!MulMag(b[1], P(b[2] - m))
+ASSUME \A k \in {0, 1, 5, 12, 13, 14, 26, 40, 53, 77, 120} : \A dlt \in 0..12 : \A b \in {1, 20, 52, 53, 54, 55, 56, 66, 67, 90, 130} :
+         /\ SameValue(D!RN53P2(B!AddMag(P(b), B!MagOfNat(dlt)), k), D!RN53(B!AddMag(P(b), B!MagOfNat(dlt)), P(k)))
+         /\ SameValue(D!RN53P2(B!SubMag(P(b), B!MagOfNat(dlt % 2)), k), D!RN53(B!SubMag(P(b), B!MagOfNat(dlt % 2)), P(k)))
+         /\ SameValue(D!RN53P2(B!AddMag(B!MulSmallMag(P(b), 3), B!MagOfNat(dlt)), k), D!RN53(B!AddMag(B!MulSmallMag(P(b), 3), B!MagOfNat(dlt)), P(k)))
+ASSUME \A k \in {0, 1, 12, 13, 14, 27, 60} : \A n \in {1, 2, 3, 8191, 8192, 8193, 123456789} :
+         /\ D!Shr(B!MagOfNat(n), k)[1] = B!DivModMag(B!MagOfNat(n), P(k))[1]
+         /\ D!Shr(B!MagOfNat(n), k)[2] = (B!DivModMag(B!MagOfNat(n), P(k))[2] # <<>>)
 VARIABLE x
 Init == x = 0
 Next == UNCHANGED x
